@@ -93,6 +93,23 @@ def run():
     sc.check("preprocess:records-no-unsupported", not reporters and "preprocess" in by_name,
              "no generator method reachable from Generator.preprocess() calls self.unsupported() (generate() clears the messages after preprocessing)",
              f"{reporters[:5]}; reachable methods: {sorted(seen)[:12]}")
+    # generate() is the entry point that resets the collected messages (and reports them at its end): a generator method that
+    # re-enters it on the SAME generator (self.generate(...)) would drop every message collected so far for the outer statement
+    # under WARN / RAISE, while IMMEDIATE has already raised.  Frame condition: no method of a generator class calls self.generate.
+    reentrant = []
+    for path in files("sqlglot/generator.py", "sqlglot/generators/*.py"):
+        rel = os.path.relpath(path, REPO)
+        for n in ast.walk(tree_of(path)):
+            if isinstance(n, ast.ClassDef):
+                for m in n.body:
+                    if isinstance(m, ast.FunctionDef) and m.args.args and m.args.args[0].arg == "self":
+                        for c in ast.walk(m):
+                            if isinstance(c, ast.Call) and isinstance(c.func, ast.Attribute) and c.func.attr == "generate" \
+                                    and isinstance(c.func.value, ast.Name) and c.func.value.id == "self":
+                                reentrant.append(f"{rel}:{n.name}.{m.name}:{c.lineno}")
+    sc.check("generate:not-reentered", not reentrant,
+             "no generator method calls self.generate() (the entry point that clears unsupported_messages is never re-entered on the same generator)",
+             f"{reentrant[:5]}")
     # parse_into reads e.errors of ParseError objects (not self.errors): confirm it never touches self.errors
     sc.assumptions.append("frame scans are syntactic: getattr/setattr with computed names and aliasing of the parser object under another attribute name are not covered")
     return sc
